@@ -669,6 +669,15 @@ func runShape(s *Session) []map[string]interface{} {
 		if v, err := strconv.ParseInt(strings.Trim(curName, " "), 10, 64); err == nil {
 			curID = v
 		}
+		// the rule under test may omit its description and / or salience clause (then @desc is "" and @sal is 0)
+		// and may follow another rule in the same text that has both
+		omitDesc, omitSal, preceded := r.Intn(4) == 0, r.Intn(4) == 0, r.Intn(2) == 0
+		if omitDesc {
+			curDesc = ""
+		}
+		if omitSal {
+			curSal = 0
+		}
 		types := map[string]string{}
 		assign(tree, []string{"bool", "num", "num", "str"}[r.Intn(4)], r, types)
 		illP := r.Intn(12) == 0 // sometimes an ill-typed operand
@@ -714,7 +723,18 @@ func runShape(s *Session) []map[string]interface{} {
 			sb.WriteString(" ")
 		}
 		expr := strings.TrimSpace(sb.String())
-		src := fmt.Sprintf("rule \"%s\" \"%s\" salience %d\nbegin\n", curName, curDesc, curSal)
+		src := ""
+		if preceded {
+			src = "rule \"before\" \"description of the rule before\" salience 77\nbegin\n  zz = 1\nend\n"
+		}
+		src += fmt.Sprintf("rule \"%s\"", curName)
+		if !omitDesc {
+			src += fmt.Sprintf(" \"%s\"", curDesc)
+		}
+		if !omitSal {
+			src += fmt.Sprintf(" salience %d", curSal)
+		}
+		src += "\nbegin\n"
 		for _, l := range locals {
 			src += "  " + l + "\n"
 		}
